@@ -1027,3 +1027,24 @@ def dict_display(f, name: str) -> Optional[ast.Dict]:
                             its = [a_.iter for a_ in ancestors(st) if isinstance(a_, (ast.For, ast.AsyncFor))]
                             values[i] = ast.Tuple(elts=(list(old.elts) if isinstance(old, ast.Tuple) else [old]) + [st.value] + its, ctx=ast.Load())
     return ast.fix_missing_locations(ast.copy_location(ast.Dict(keys=keys, values=values), dval))
+
+
+def precedes(root, a: ast.AST, b: ast.AST) -> bool:
+    """``a`` comes before ``b`` in the statement order of ``root`` (source order of the tree as analysed - NOT line
+    numbers: code inlined from a helper keeps the helper's own line numbers)."""
+    node = root.node if isinstance(root, FuncInfo) else root
+    ia = ib = None
+    for i, n in enumerate(walk_ordered(node)):
+        if n is a:
+            ia = i
+        if n is b:
+            ib = i
+    if ia is None or ib is None:
+        la, lb = getattr(a, "lineno", 0), getattr(b, "lineno", 0)
+        return la < lb
+    return ia < ib
+
+
+def after_block(root, block: ast.AST, n: ast.AST) -> bool:
+    """``n`` is outside ``block`` and comes after it."""
+    return not contains(block, n) and precedes(root, block, n)
